@@ -559,3 +559,29 @@ func ruleSharedIsolated(c *Ctx) {
 	c.Check(okW, "R7", "isolated context follows its parent's end", 0, "a watcher goroutine selects on parent.Done() and kills or stops the isolated scope", "no watcher that stops/kills the isolated scope when the parent ends")
 	c.Floor("R7", n, 3)
 }
+
+// ruleScopeWaitWaits: scope.(*Scope).Wait reaches wg.Wait() of the scope's own
+// task group on every path to every return.
+func ruleScopeWaitWaits(c *Ctx, rule string) {
+	scopeT := c.P.Named(scopePkg, "Scope")
+	waitF := c.P.Func(scopePkg, "Scope", "Wait")
+	if scopeT == nil || waitF == nil {
+		c.Bad(rule, "scope.(*Scope).Wait", 0, "anchor not found")
+		return
+	}
+	_, wgi := fieldIndex(scopeT, "wg")
+	var wc *CallInfo
+	for _, ci := range Calls(waitF) {
+		if ci.Static != nil && qualName(ci.Static) == "sync.(WaitGroup).Wait" {
+			if fa, ok := ci.Recv().(*ssa.FieldAddr); ok && fa.Field == wgi && fa.X == ssa.Value(waitF.Params[0]) {
+				wc = ci
+			}
+		}
+	}
+	ok := wc != nil
+	if ok {
+		ok = len(MustPass(waitF, nil, func(in ssa.Instruction) bool { return in == wc.Instr })) == 0
+	}
+	c.Check(ok, rule, "scope.(*Scope).Wait waits for the task group on every path", waitF.Pos(), "wg.Wait() on every path to every return",
+		"Wait can return without waiting for the task group — whoever waits on a scope proceeds while its tasks or child scopes are still running")
+}
